@@ -364,7 +364,11 @@ def rule_R4(res, prog, cg, c, prop=None, rid="C02.R4", directions=("open", "seal
                 continue
             seen.add((fname, direction))
             fn = prog.fn(fname)
-            req = REQ[(direction, ver)]
+            req = dict(REQ[(direction, ver)])
+            if ver == "tls12" and flags & fl["CHACHA"]:
+                # RFC 7905: no explicit nonce on the wire; nonce = fixed IV XOR sequence number
+                req["nonce"] = [("F", "sslSec", "remSeq"), ("F", "sslSec", "readIV")] if direction == "open" else \
+                    [("F", "sslSec", "seq"), ("F", "sslSec", "writeIV")]
             found = 0
             for b, ln, call in fn.calls():
                 spec = AEAD_ARGS.get(call.get("fn"))
